@@ -8,6 +8,8 @@
 #include <string>
 #include <vector>
 
+#include <sstream>
+#include <string_theory/iostream>
 #include "common/alloc_track.h"
 #include "common/verif.h"
 #include "gen/unit_gen.h"
@@ -44,6 +46,7 @@ struct World {
     Placed<ST::utf32_buffer> b32; std::u32string m32;
     Placed<ST::wchar_buffer> bw; std::wstring mw;
     Placed<ST::string_stream> ss[NSS]; std::string mss[NSS];
+    std::string out, mout;                       // a caller-supplied std::string (to_std_string(std::string&, ...))
     std::string log; bool want_log = false;
     bool nontrivial = false; int pending_long_fail = 0;
     long failed_steps = 0, ok_steps = 0;
@@ -65,6 +68,7 @@ struct World {
         for (int i = 0; i < NCB; i++) mcb[i].assign(cb[i].obj->data(), cb[i].obj->size());
         m16.assign(b16.obj->data(), b16.obj->size()); m32.assign(b32.obj->data(), b32.obj->size()); mw.assign(bw.obj->data(), bw.obj->size());
         for (int i = 0; i < NSS; i++) mss[i].assign(ss[i].obj->raw_buffer(), ss[i].obj->size());
+        mout = out;
     }
     // everything equals its model; "" when fine
     std::string unchanged() {
@@ -80,6 +84,7 @@ struct World {
         if (bw.obj->size() != mw.size() || std::wstring(bw.obj->data(), bw.obj->size()) != mw || bw.obj->data()[mw.size()] != 0) return "wchar_buffer no longer holds its previous value";
         for (int i = 0; i < NSS; i++) { const ST::string_stream &t = *ss[i].obj;
             if (t.size() != mss[i].size() || memcmp(t.raw_buffer(), mss[i].data(), mss[i].size()) != 0) { snprintf(msg, sizeof msg, "string_stream %d no longer holds its previous content (size %zu, was %zu)", i, t.size(), mss[i].size()); return msg; } }
+        if (out != mout) return "the caller-supplied std::string no longer holds its previous value";
         if (const char *e = va::error()) { std::string w = e; va::clear_error(); return w; }
         return std::string();
     }
@@ -114,7 +119,7 @@ enum Expect { NONE = 0, UNICODE = 1, CODEC = 2, FORMAT = 4, RANGE = 8 };
 
 // One step.  Returns "" or a violation.  `threw` reports whether a permitted exception was thrown.
 std::string step(verif::Reader &r, Case &c, World &w, size_t k) {
-    int op = (int)r.range(0, 41), i = (int)r.idx(NSTR), j = (int)r.idx(NCB), q = (int)r.idx(NSS);
+    int op = (int)r.range(0, 48), i = (int)r.idx(NSTR), j = (int)r.idx(NCB), q = (int)r.idx(NSS);
     bool longv = r.flag();
     ST::string &S = *w.s[i].obj; ST::char_buffer &B = *w.cb[j].obj; ST::string_stream &Q = *w.ss[q].obj;
     bool target_long = false;
@@ -177,6 +182,21 @@ std::string step(verif::Reader &r, Case &c, World &w, size_t k) {
         case 38: { int v = (int)r.range(0, 4); if (v == 0) Q << e16.data(); else if (v == 1) Q << e32.data(); else if (v == 2) Q << ew.data(); else if (v == 3) Q << bad16; else Q << std::u32string_view(bad32);
                    what = "stream << malformed wide text"; target_long = Q.size() > 256; break; }
         case 39: { ST::string t = Q.to_string(); S = t; what = "s = stream.to_string()"; target_long = Q.size() > 256 || S.size() >= 16; break; }
+        // ---- conversions that write into a caller-supplied object
+        case 42: { int v = (int)r.range(0, 2); if (v == 0) S.to_buffer(B, false, false); else if (v == 1) S.to_buffer(B, false, ST::check_validity); else S.to_buffer(B, true, false);
+                   what = "s.to_buffer(char_buffer&, latin-1, no substitution)"; target_long = B.size() >= 16; break; }
+        case 43: { if (r.flag()) S.to_std_string(w.out, false, false); else w.out = S.to_std_string(false, false); what = "s.to_std_string(std::string&, latin-1, no substitution)"; target_long = w.out.size() >= 16; break; }
+        case 44: { int v = (int)r.range(0, 2); if (v == 0) S.to_buffer(*w.b16.obj); else if (v == 1) S.to_buffer(*w.b32.obj); else S.to_buffer(*w.bw.obj); what = "s.to_buffer(wide buffer&)"; break; }
+        case 45: { int v = (int)r.range(0, 3);
+                   if (v == 0) *w.b16.obj = ST::utf8_to_utf16(e8.data(), bad8.size(), ST::check_validity);
+                   else if (v == 1) *w.b32.obj = ST::utf16_to_utf32(e16.data(), bad16.size(), ST::check_validity);
+                   else if (v == 2) B = ST::utf32_to_utf8(e32.data(), bad32.size(), ST::check_validity);
+                   else B = ST::utf16_to_latin_1(e16.data(), bad16.size(), ST::check_validity, true);
+                   what = "buffer = free conversion(malformed, check_validity)"; target_long = B.size() >= 16; break; }
+        case 46: { std::istringstream is(std::string(" ") + bad8 + " tail"); is >> S; what = "istream >> s (malformed token)"; target_long = S.size() >= 16; break; }
+        case 47: { std::wistringstream is(badw); is >> S; what = "wistream >> s (malformed token)"; target_long = S.size() >= 16; break; }
+        case 48: { int v = (int)r.range(0, 2); if (v == 0) S = ST::string::from_std_string(bad8); else if (v == 1) S.set(std::string_view(e8.data(), bad8.size())); else S = ST::string(bad32, ST::check_validity);
+                   what = "s = from_std_string / string_view / u32string (malformed)"; target_long = S.size() >= 16; break; }
         // ---- out_of_range
         case 40: { char ch = S.at(S.size() + r.range(0, 3)); (void)ch; what = "s.at(size+k)"; break; }
         default: { char ch = B.at(B.size()); (void)ch; what = "buffer.at(size)"; break; }
